@@ -124,7 +124,7 @@ func (g *G) matchers() string {
 
 func (g *G) selectorCore() string {
 	if g.p.Nameless && chance(g.t, 1, 3, "nameless") {
-		return pick(g.t, []string{`{a=~".+"}`, `{b="2"}`, `{__name__=~"m|n"}`, `{a="1",c!=""}`, `{__name__=~".+",b!="1"}`}, "namelesssel")
+		return pick(g.t, []string{`{a=~".+"}`, `{b="2"}`, `{__name__=~"m|n"}`, `{a="1",c!=""}`, `{__name__=~".+",b!="1"}`, `{__name__=~"m.*"}`, `{__name__=~"(m|n|k)2?"}`}, "namelesssel")
 	}
 	name := pick(g.t, g.p.Metrics, "selmetric")
 	m := g.matchers()
@@ -336,7 +336,7 @@ func (g *G) grouping() string {
 	if k >= 4 {
 		kw = "without"
 	}
-	univ := []string{"a", "b", "c", "__name__", "zz", "le"}
+	univ := []string{"a", "b", "c", "__name__", "zz", "Z"}
 	n := pick(t, []int{0, 1, 1, 2, 2, 3}, "ngrp")
 	var ls []string
 	for i := 0; i < n; i++ {
@@ -387,7 +387,7 @@ func (g *G) labelList() string {
 	n := pick(t, []int{0, 1, 1, 2, 3}, "nlbl")
 	var ls []string
 	for i := 0; i < n; i++ {
-		ls = append(ls, pick(t, []string{"a", "b", "c", "a", "b", "zz"}, "lbl"))
+		ls = append(ls, pick(t, []string{"a", "b", "c", "a", "b", "zz", "Z"}, "lbl"))
 	}
 	return strings.Join(ls, ",")
 }
